@@ -202,7 +202,8 @@ static std::string run_case(Session& S, const std::string& line) {
         if (c->file_descriptor() < 0) continue;
         sockaddr_in a{};
         socklen_t n = sizeof a;
-        if (getpeername(c->file_descriptor(), (sockaddr*)&a, &n) == 0 && ntohs(a.sin_port) == pk.second.port) pcb = c;
+        if (getpeername(c->file_descriptor(), (sockaddr*)&a, &n) == 0 && ntohs(a.sin_port) == pk.second.port &&
+            (ntohl(a.sin_addr.s_addr) & 0xff) == (unsigned)(2 + pk.first)) pcb = c;
       }
       if (!pcb) continue;
       auto* e = pcb->m_extensions;
